@@ -62,8 +62,23 @@ pub fn ints() -> VS {
     .boxed()
 }
 
+/// 1-17 significant digits times 10^k for k in -30..30: every switch point of a number printer / parser
+pub fn decade_floats() -> VS {
+    (vec(0u8..10, 1..=17), -30i32..=30, any::<bool>())
+        .prop_map(|(digits, exp, neg)| {
+            let mut m: String = digits.iter().map(|d| (b'0' + d) as char).collect();
+            if m.len() > 1 {
+                m.insert(1, '.');
+            }
+            let text = format!("{}{}e{}", if neg { "-" } else { "" }, m, exp);
+            f(text.parse::<f64>().unwrap_or(0.0))
+        })
+        .boxed()
+}
+
 pub fn floats() -> VS {
     prop_oneof![
+        2 => decade_floats(),
         4 => select(FLOAT_SPECIALS.to_vec()).prop_map(f),
         2 => (-10i64..=10).prop_map(|i| f(i as f64)),
         1 => (-40i64..=40).prop_map(|i| f(i as f64 / 4.0)),
@@ -81,6 +96,13 @@ pub fn numbers() -> VS {
 pub const ES_SPACES: &[&str] = &["\t", "\n", "\u{000B}", "\u{000C}", "\r", " ", "\u{00A0}", "\u{1680}", "\u{2003}", "\u{2028}", "\u{2029}", "\u{202F}", "\u{205F}", "\u{3000}", "\u{FEFF}"];
 /// look like white space but are not for ECMAScript
 pub const SPACE_TRAPS: &[&str] = &["\u{0085}", "\u{180E}", "\u{200B}"];
+
+pub const RADIX_EDGE: &[&str] = &[
+    "0x+10", "0X+ff", "0o+17", "0b+11", "0x-1", "0b-1", "0o-7", "0x 1", "0xffffffffffffffff", "0x10000000000000000", "0xfffffffffffffffff", "0o1777777777777777777777", "0o2000000000000000000000",
+    "0o7777777777777777777777", "0o17777777777777777777777", "0o777777777777777777777", "0b1111111111111111111111111111111111111111111111111111111111111111",
+    "0b10000000000000000000000000000000000000000000000000000000000000000", "0x1fffffffffffff", "0x20000000000001", "5.e3", "2.E-1", "-4.e+1", "1.e2px", "5.e", "0.3", "0.30000000000000004", "0.1",
+    "0.10000000000000002", "1.0000000000000002", "0.9999999999999999",
+];
 
 pub const NUM_TRAPS: &[&str] = &[
     "inf", "INF", "Inf", "infinity", "INFINITY", "-inf", "+inf", "nan", "NaN", "NAN", "1_0", "0x", "0X", "-0x10", "+0x10", "0x1.8", "0xg", "1e", "1e+", "1e-", ".", "+", "-", "e5", ".e5", "1,2", "12px",
@@ -123,6 +145,7 @@ pub fn num_strings() -> BoxedStrategy<String> {
         5 => decimal_literal(),
         2 => radix_literal(),
         3 => select(NUM_TRAPS.to_vec()).prop_map(|s| s.to_string()),
+        1 => select(RADIX_EDGE.to_vec()).prop_map(|s| s.to_string()),
         1 => Just(String::new()),
     ];
     let space = prop_oneof![
@@ -143,18 +166,40 @@ pub const TWO_BYTE: &[char] = &['é', 'ü', 'ß', 'Ω', 'я', '\u{00A0}', '\u{03
 pub const THREE_BYTE: &[char] = &['日', '本', '語', '€', '\u{FEFF}', '\u{2028}', '\u{FFFD}', 'ก'];
 pub const FOUR_BYTE: &[char] = &['😀', '𝄞', '𐍈', '\u{10FFFF}'];
 
+/// first / last code point of every UTF-8 lead-byte class and of the surrogate gap's neighbours
+pub const UTF8_BOUNDARIES: &[char] = &[
+    '\u{7F}', '\u{80}', '\u{7FF}', '\u{800}', '\u{FFF}', '\u{1000}', '\u{CFFF}', '\u{D000}', '\u{D55C}', '\u{D7FF}', '\u{E000}', '\u{F600}', '\u{FF21}', '\u{FFFF}', '\u{10000}', '\u{10041}', '\u{1F600}', '\u{2F600}',
+    '\u{3FFFF}', '\u{40000}', '\u{FFFFF}', '\u{100000}', '\u{10FFFF}',
+];
+
 pub fn chars() -> BoxedStrategy<char> {
     prop_oneof![
-        4 => select(ASCII.to_vec()),
-        2 => select(TWO_BYTE.to_vec()),
-        2 => select(THREE_BYTE.to_vec()),
-        2 => select(FOUR_BYTE.to_vec()),
+        8 => select(ASCII.to_vec()),
+        4 => select(TWO_BYTE.to_vec()),
+        4 => select(THREE_BYTE.to_vec()),
+        4 => select(FOUR_BYTE.to_vec()),
+        2 => select(UTF8_BOUNDARIES.to_vec()),
+        // any Unicode scalar value, all planes (curated pools alone would never meet e.g. the 0xED lead byte)
+        1 => proptest::char::range('\u{80}', '\u{7FF}'),
+        2 => proptest::char::range('\u{800}', '\u{FFFF}'),
+        1 => proptest::char::range('\u{10000}', '\u{10FFFF}'),
     ]
     .boxed()
 }
 
 pub fn texts(max: usize) -> BoxedStrategy<String> {
     vec(chars(), 0..=max).prop_map(|v| v.into_iter().collect::<String>()).boxed()
+}
+
+/// Long strings whose byte lengths straddle typical buffer / truncation boundaries (255..4100 bytes), with multi-byte
+/// characters at every alignment: unit repeated n times, optionally after a 0..3 character ASCII prefix.
+pub fn long_texts() -> BoxedStrategy<String> {
+    (select(vec!["é", "日", "😀", "a", "ab", "xé", "\u{0301}a"]), select(vec![100usize, 127, 128, 129, 170, 171, 255, 256, 257, 341, 400, 511, 512, 513, 1023, 1024, 1025, 2000, 4100]), 0usize..4)
+        .prop_map(|(unit, bytes, prefix)| {
+            let n = (bytes / unit.len()).max(1);
+            format!("{}{}", "x".repeat(prefix), unit.repeat(n))
+        })
+        .boxed()
 }
 
 pub const OP_NAMES: &[&str] = &[
@@ -337,10 +382,44 @@ fn respell(v: &Value) -> Option<Value> {
     }
 }
 
+fn adjacent_double(x: f64, up: bool) -> f64 {
+    if x == 0.0 {
+        return if up { 5e-324 } else { -5e-324 };
+    }
+    let bits = x.to_bits();
+    let next = if (x > 0.0) == up { bits + 1 } else { bits - 1 };
+    f64::from_bits(next)
+}
+
+/// a string that differs from `s` in exactly one character, replaced by a *related* character: the next code point,
+/// the same low 16 / low 8 bits (truncation twins), the other case, or a twin 0x10000 higher
+pub fn near_miss_string(s: &str, at: u16, how: u8) -> Option<String> {
+    let mut cs: Vec<char> = s.chars().collect();
+    if cs.is_empty() {
+        return None;
+    }
+    let i = pick(at, cs.len());
+    let c = cs[i] as u32;
+    let cand = match how % 6 {
+        0 => c + 1,
+        1 => c & 0xFFFF,
+        2 => c & 0xFF,
+        3 => c + 0x10000,
+        4 => c ^ 0x20,
+        _ => c.wrapping_sub(1),
+    };
+    let r = char::from_u32(cand)?;
+    if r == cs[i] {
+        return None;
+    }
+    cs[i] = r;
+    Some(cs.into_iter().collect())
+}
+
 /// Pairs (a, b) where b is often derived from a so that equal-looking operands of different classes meet.
 pub fn related_pairs() -> BoxedStrategy<(Value, Value)> {
-    (cmp_values(), 0u8..12, cmp_values(), select(ES_SPACES.to_vec()))
-        .prop_map(|(a, t, other, sp)| {
+    (cmp_values(), 0u8..18, cmp_values(), select(ES_SPACES.to_vec()), any::<u16>(), any::<u8>())
+        .prop_map(|(a, t, other, sp, at, how)| {
             use crate::model::coerce;
             let b = match t {
                 0 | 1 | 2 => other,
@@ -366,7 +445,32 @@ pub fn related_pairs() -> BoxedStrategy<(Value, Value)> {
                     }
                 }
                 10 => j(coerce::truthy(&a)),
-                _ => json!([[a.clone()]]),
+                11 => json!([[a.clone()]]),
+                // the neighbouring integer (same double beyond 2^53)
+                12 => match a.as_i64() {
+                    Some(i) => j(if how % 2 == 0 { i.wrapping_add(1) } else { i.wrapping_sub(1) }),
+                    None => other,
+                },
+                // the adjacent double, as a number and as its text
+                13 | 14 => match a.as_f64().or_else(|| { let n = coerce::to_number(&a); if n.is_finite() { Some(n) } else { None } }) {
+                    Some(x) => {
+                        let y = adjacent_double(x, how % 2 == 0);
+                        if !y.is_finite() {
+                            other
+                        } else if t == 13 {
+                            f(y)
+                        } else {
+                            Value::String(f(y).to_string())
+                        }
+                    }
+                    None => other,
+                },
+                // a string one related character away
+                15 | 16 => match &a {
+                    Value::String(s) => near_miss_string(s, at, how).map(Value::String).unwrap_or(other),
+                    _ => other,
+                },
+                _ => other,
             };
             (a, b)
         })
